@@ -36,7 +36,7 @@ func init() {
 	register("C02", func(tier string) CheckSpec {
 		depth, budget := 3, 200*time.Second
 		if tier == "thorough" {
-			depth, budget = 5, 30*time.Minute
+			depth, budget = 5, 20*time.Minute
 		}
 		return CheckSpec{Level: "model_checking", Rule: searchRule, Assumptions: commonAssumptions, Budget: budget, Units: eligibilityUnits(depth),
 			MustSee: []string{"member", "member-with-assigned-key", "excluded-only-because-inactive", "excluded-by-lists", "excluded-by-minstake", "excluded-not-bonded", "launch-checked", "non-epoch-block"}}
